@@ -139,7 +139,7 @@ Record expr_ok := {
   eo_n : nat;                                                          (* token trees taken *)
   eo_u : uexpr;
   eo_range : option (option uexpr * span * bool * option uexpr);       (* Expr::Range: start, limits, closed, end *)
-  eo_str : option string;                                              (* Expr::Lit(Lit::Str): its value *)
+  eo_str : option string;                                              (* Expr::Lit(Lit::Str) without attributes: its value *)
   eo_unx : option span }.                                              (* leftover inside one of its own groups *)
 Record path_ok := { po_n : nat; po_p : rpath; po_unx : option span }.   (* po_unx: leftover inside one of the path's own groups (generic arguments) *)
 Record closure_ok := {
